@@ -411,6 +411,44 @@ def oob_verdict(topo, s, ob):
         ob["post"] = ob["post"] + [{"host": a["host"], "port": 0, "shard": a["shard"], "index": a["id"], "role": "Replica", "reason": "MessageSendFailed", "ts": ob["t1"] // 1000, "name": a["name"]}]
 
 
+def narrow_options(topo, s, ob, m, a):
+    """The outcomes the backend's mode allows, minus those the trace rules out (membership is unaffected: only
+    assignments that could not match are dropped; it keeps the enumeration over 4 candidates small)."""
+    n = a["name"]
+    busy = n in s.get("busy", [])
+    flags = m["#flags"].get(n, ())
+    o = outcome_options(m[n], busy, flags, not topo.hc)
+    optional = m[n] in ("down", "hang_startup") or busy or bool(flags)
+    served = (ob["arg"] if ob["kind"] == "ok" else ob["stmt_at"]) if ob["kind"] in ("ok", "ok_err", "exec", "oob") else None
+    if served == n:
+        # it was handed out: the checkout worked and a health check, if one ran, passed
+        if ob["hc"].get(n) and m[n] != "down":
+            o2 = [x for x in o if x.endswith("HcOk")]
+        else:
+            o2 = [x for x in o if x != "ConnFail"]
+        return o2 or o
+    if optional:
+        return o
+    if n not in ob["contacts"]:
+        return o[:1]            # never contacted (a contact would have left a trace): its outcome cannot matter
+    if ob["hc"].get(n):
+        return [x for x in o if x != "ConnFail"] or o
+    return o
+
+
+def relevant_seconds(topo, ob):
+    """Clock readings to try: every second of the step only if a ban could run out inside it; otherwise the first one
+    (new time stamps are compared by interval, see bl_match)."""
+    t0s, t1s = ob["t0"] // 1000, ob["t1"] // 1000
+    if t1s == t0s:
+        return [t0s]
+    for b in ob["pre"]:
+        d = int(b["reason"][9:-1]) if b["reason"].startswith("AdminBan(") else topo.ban_time
+        if t0s < b["ts"] + d + 1 <= t1s:
+            return list(range(t0s, t1s + 1))
+    return [t0s]
+
+
 def bl_match(model_bl, obs_bl, nows, t0s, t1s):
     """model_bl / obs_bl: lists of (id, reason, ts).  Same keys and reasons; time stamps equal, or the
     model's stamp is one of this step's clock readings (a ban made in this step) and the observed one
@@ -867,8 +905,8 @@ def run_and_check(run, col, wire, cases, stats, label, workers=16):
                     req = {"replica": "(Some Replica)", "primary": "(Some Primary)"}.get(role, "None")
                     shard = "None" if s.get("shard") is None else "(Some %d%%nat)" % s["shard"]
                     cands = topo.candidates(role, s.get("shard"))
-                    opts = "[" + "; ".join("(%s, [%s])" % (topo.coq_addr(a), "; ".join(outcome_options(m[a["name"]], a["name"] in s.get("busy", []), m["#flags"].get(a["name"], ()), not topo.hc))) for a in cands) + "]"
-                    nows = sorted(set([ob["t0"] // 1000, ob["t1"] // 1000] + list(range(ob["t0"] // 1000, ob["t1"] // 1000 + 1))))
+                    opts = "[" + "; ".join("(%s, [%s])" % (topo.coq_addr(a), "; ".join(narrow_options(topo, s, ob, m, a))) for a in cands) + "]"
+                    nows = relevant_seconds(topo, ob)
                     if ob["kind"] == "exec":
                         ek = "(Some (fun a now => ExecFail a %s now %s))" % (ob["arg"], "true" if s.get("fate") else "false")
                     elif ob["kind"] == "oob" or (s.get("oob") and ob["kind"] == "ok"):
